@@ -94,6 +94,8 @@ def impl_rt(case):
 
     K = D.Covariates if case["cov"] else D.Phenotypes
     f = _dir / ("t.pheno.gz" if case["gz"] else "t.pheno")
+    if case["seed"] % 8 == 3:
+        _simulated_verbosely()
     p = K(f, log=SD.silent_log())
     p.samples = tuple(case["samples"])
     p.names = tuple(case["names"])
@@ -111,6 +113,32 @@ def impl_rt(case):
     return {"samples": list(r.samples), "names": list(r.names), "bits": [[bits(x) for x in row] for row in np.asarray(r.data)], "header": text.splitlines()[0].split("\t"), "want": sorted(want) if want else None,
             # what the statement demands of the file itself: every cell is a token that any correctly rounding reader turns into the bits it was written from
             "tokens": [["reads" if math.isfinite(from_bits(b)) else "special" for b in row] for row in case["bits"]]}
+
+
+def _simulated_verbosely():
+    """what `haptools simphenotype --verbosity DEBUG` does before it writes its phenotypes: one trait simulated by a simulator whose
+    logger is at DEBUG level (the records go nowhere).  Files written later in the same process round-trip like any other."""
+    import logging
+
+    from haptools.sim_phenotype import Effect, PhenoSimulator
+
+    log = logging.getLogger("c15-debug-run")
+    log.setLevel(logging.DEBUG)
+    log.propagate = False
+    if not log.handlers:
+        log.addHandler(logging.NullHandler())
+    g = D_genotypes(log)
+    PhenoSimulator(g, seed=3, log=log).run([Effect(id="v0", beta=0.25), Effect(id="v1", beta=-0.5)], heritability=0.5)
+
+
+def D_genotypes(log):
+    from haptools import data as D
+
+    g = D.Genotypes(fname=None, log=log)
+    g.samples = ("a", "b", "c")
+    g.variants = np.array([("v0", "1", 10), ("v1", "1", 20)], dtype=g.variants.dtype)
+    g.data = np.array([[[0, 1], [1, 1]], [[1, 1], [0, 0]], [[0, 0], [0, 1]]], dtype=np.uint8)
+    return g
 
 
 def model_req_rt(case):
@@ -370,6 +398,13 @@ def impl_ops(case):
         r1 = C.guarded(lambda: (lambda q: {"names": list(q.names), "data": np.asarray(q.data).tolist()})(p.subset(names=("e1",))))
         r2 = C.guarded(lambda: (lambda q: {"names": list(q.names), "data": np.asarray(q.data).tolist()})(p.subset(names=("e2", case["names"][0]))))
         out["append_history"] = [r1, r2]
+        # a column appended, the table reordered in place (its matrix is then another array), a second column appended: every
+        # earlier column keeps the values it has now
+        p = mk()
+        p.append("e1", np.arange(n_, dtype=np.float64) + 100)
+        p.subset(samples=tuple(case["samples"][::-1]), inplace=True)
+        p.append("e2", np.arange(n_, dtype=np.float64) + 200)
+        out["append_reorder_append"] = C.guarded(lambda: {"names": list(p.names), "samples": list(p.samples), "data": np.asarray(p.data).tolist()})
         if n_ >= 2:
             # two tables cut from one (train / test) after its lookups were built; each gets a column of its own: a name
             # exists only in the table it was appended to
@@ -438,6 +473,10 @@ def oracle_ops(case, obs):
         w2 = {"names": ["e2", case["names"][0]], "data": [[float(i + 200), D[i][0]] for i in range(ns)]}
         if r1 != w1 or r2 != w2:
             return f"after a by-name lookup and two appends, subset(names=('e1',)) gave {r1} and subset(names=('e2', {case['names'][0]!r})) gave {r2}; expected {w1} and {w2}"
+    if "append_reorder_append" in obs:
+        w = {"names": list(case["names"]) + ["e1", "e2"], "samples": list(case["samples"][::-1]), "data": [list(D[i]) + [float(i + 100), float(k + 200)] for k, i in enumerate(range(ns - 1, -1, -1))]}
+        if obs["append_reorder_append"] != w:
+            return f"append('e1'), subset(samples reversed, in place), append('e2') left {obs['append_reorder_append']}; expected {w}"
     if "siblings" in obs:
         h = ns // 2
         n0 = case["names"][0]
@@ -497,7 +536,7 @@ CHECK = Check(
             setup=setup,
             teardown=teardown,
             nontrivial=lambda c, o: C.jdump([c["bits"], c["names"]]),
-            describe=lambda c, o: ["Covariates" if c["cov"] else "Phenotypes", "gzip" if c["gz"] else "plain", "dup-names" if len(set(c["names"])) < len(c["names"]) else "uniq-names", "sample-subset" if c["subset"] else "all"],
+            describe=lambda c, o: ["after-a-DEBUG-level-simulation-in-the-process" if c["seed"] % 8 == 3 else "plain-process", "Covariates" if c["cov"] else "Phenotypes", "gzip" if c["gz"] else "plain", "dup-names" if len(set(c["names"])) < len(c["names"]) else "uniq-names", "sample-subset" if c["subset"] else "all"],
             rule="seeded float64 tables (1-5 samples x 1-4 columns) whose cells are drawn from bit patterns: uniform over the finite 2^64 patterns, a list of special values (subnormals, +-0, max, 1e+-300, 17-digit values, halfway cases), neighbours of powers of two and ten, integers, scaled gaussians; name multisets incl. duplicates and already-suffixed forms; plain / gzip, Phenotypes / Covariates, read of all samples or a subset; values compared BITWISE after write+read, names with the Lean uniqNames; every token of the written file is judged in Lean against the bits it was written from (FloatText.checkTok: exact integer test that the decimal lies in the rounding interval of the double, which by C15.decimal_reads_as_at_most_one_double no other double shares)",
         ),
         Section(
